@@ -44,6 +44,8 @@ def main():
                 env = dict(os.environ, VERIF_REPO=wt)
                 r = sh(os.path.join(ROOT, "check"), p, "--tier", a.tier, cwd=ROOT, env=env)
                 viol = [l for l in r.stdout.splitlines() if l.startswith("VIOLATION")]
+                os.makedirs(os.path.join(ROOT, ".work", "logs"), exist_ok=True)
+                open(os.path.join(ROOT, ".work", "logs", "seeded_%s_%s.out" % (sid, p)), "w").write(r.stdout[-20000:])
                 res[p] = {"exit": r.returncode, "violations": len(viol), "first": (viol[0] if viol else ""),
                           "detail": next((l.strip() for l in r.stdout.splitlines() if l.startswith("  clause=")), "")[:300],
                           "wall_s": round(time.time() - t0, 1)}
